@@ -2,9 +2,9 @@
 # usage: sweep.sh <outdir> <seed> <traces> <steps> [profiles...]  — ad-hoc unchanged-tree sweep (development aid)
 out=$1; seed=$2; n=$3; steps=$4; shift 4
 profiles=${@:-default big queues rewards gov staking}
-mkdir -p $out
+mkdir -p $out/scn
 for p in $profiles; do
-  ( cd /verif/harness && VERIF_GEN=1 VERIF_PROFILE=$p VERIF_SEED=$seed VERIF_TRACES=$n VERIF_STEPS=$steps VERIF_OUT=$out/$p.trace ./harness.test -test.run TestGen 2>&1 | grep -v "^\s" | grep -v "^PASS\|^ok" | head -5
+  ( cd /verif/harness && VERIF_PROBES=${VERIF_PROBES:-} VERIF_GEN=1 VERIF_PROFILE=$p VERIF_SEED=$seed VERIF_TRACES=$n VERIF_STEPS=$steps VERIF_SCNDIR=$out/scn VERIF_OUT=$out/$p.trace ./harness.test -test.run TestGen 2>&1 | grep -v "^\s" | grep -v "^PASS\|^ok" | head -5
     timeout 600 /verif/lean/.lake/build/bin/alliance-driver < $out/$p.trace > $out/$p.out
     echo "$p rc=$? ok=$(grep -c 'ok$' $out/$p.out) div=$(grep -c 'diverge\|parse' $out/$p.out)" ) &
 done
